@@ -763,6 +763,10 @@ def _fits(mesh, kernel):
     return all((kernel[a] - 1) // 2 <= (n[a] if (a < 2 or n[2] > 0) else 0) for a in range(len(kernel)))
 
 
+def VIEWS_LAYOUT_ITEMS(it, tier):
+    return True
+
+
 def items(tier):
     q = tier == "quick"
     out = []
